@@ -167,7 +167,8 @@ def _exec_wide(args):
         out.append(x_store.observe(fx, np, (s, w, f), (r, o), vals, carrier, route, props, False))
         if rng.random() < 0.5:
             ac = rng.choice(['ndarray-f64', 'list', 'tuple', 'ndarray-i64', 'nested-list', 'ndarray-f32', 'ndarray-i32', 'ndarray-u8',
-                            'list-decstr', 'nested-tuple', 'ndarray-2d'])
+                            'list-decstr', 'nested-tuple', 'ndarray-2d', 'list-np.int8', 'list-np.int16', 'tuple-np.int32', 'list-np.uint8',
+                            'list-np.float16', 'tuple-np.float32', 'list-np.uint16', 'list-mixed-np'])
             ar = rng.choice(['ctor', 'call', 'set_val', 'setitem-slice', 'call-reset', 'recfg', 'setitem-reuse', 'resize-signed', 'resize-fmt', 'like-signed'] if not (ac.startswith('nested') or ac == 'ndarray-2d') else ['ctor', 'call', 'set_val', 'recfg', 'resize-signed', 'like-signed'])
             vv = sorted(vals) if len(vals) % 2 == 0 else sorted(vals)[:-1]
             if vv:
@@ -179,6 +180,11 @@ def _exec_wide(args):
             big = [b for b in big if F(float(b)) == b]
             out.append(x_store.observe(fx, np, (s, w, f), (r, 'saturate'), big, 'pyfloat', rng.choice(sroutes), props, False,
                                        {'huge': True}))
+            # the same huge values in ONE array together with ordinary fractional inputs (every element is rounded by the configured rule)
+            mix = big[:2] + vals[:6]
+            rng.shuffle(mix)
+            out.append(x_store.observe(fx, np, (s, w, f), (r, 'saturate'), mix, rng.choice(['ndarray-f64', 'list', 'tuple']),
+                                       rng.choice(['ctor', 'call', 'set_val']), props, True, {'huge': True}))
     # narrow NumPy integer carriers at the boundary between their own width and the word: n_word = bits + n_frac (+-1)
     for _ in range(max(2, count // 6)):
         bits = rng.choice([8, 16, 32])
@@ -193,6 +199,8 @@ def _exec_wide(args):
         uc = {8: 'np.uint8', 16: 'np.uint16', 32: 'np.uint32'}[bits]
         out.append(x_store.observe(fx, np, (s, w, f), (r, o), [F(i) for i in ints], uc, rng.choice(sroutes), props, False))
         out.append(x_store.observe(fx, np, (s, w, f), (r, o), [F(i) for i in ints], 'ndarray-u%d' % bits, rng.choice(['ctor', 'call', 'set_val', 'setitem-slice']), props, True))
+        if bits <= 16:
+            out.append(x_store.observe(fx, np, (s, w, f), (r, o), [F(i) for i in ints], 'list-np.uint%d' % bits, rng.choice(['ctor', 'call', 'set_val']), props, True))
         sints = sorted({-top // 2, -top // 2 + 1, -1, 0, top // 2 - 1, rng.randrange(-top // 2, top // 2)})
         if bits <= 16:
             out.append(x_store.observe(fx, np, (s, w, f), (r, o), [F(i) for i in sints], 'ndarray-i%d' % bits, rng.choice(['ctor', 'call', 'set_val']), props, True))
